@@ -1039,9 +1039,12 @@ def evaluate__analyze_string(self: XPathFunction, context: ta.ContextType = None
                     match_items.append(group_tmpl.format(idx, input_string[_start:k]))
                     match_items.append('</group>')
                 else:
-                    next_start = match.span(idx + 1)[0]
+                    # the next group that takes part in the match (an optional group may not)
+                    nxt = next((j for j in range(idx + 1, compiled_pattern.groups + 1)
+                                if match.span(j)[0] >= 0), 0)
+                    next_start = match.span(nxt)[0] if nxt else -1
                     if next_start < 0 or _stop < next_start or _stop == next_start \
-                            and group_levels[idx + 1] <= group_levels[idx]:
+                            and group_levels[nxt] <= group_levels[idx]:
                         k = _stop
                         match_items.append(group_tmpl.format(idx, input_string[_start:k]))
                         match_items.append('</group>')
